@@ -27,7 +27,76 @@ fn main() {
         "codec" | "skfields" => codec::run(a[1].as_str(), &args),
         "hostile" => hostile::run(&args),
         "sweeps" => sweeps::run(&args),
+        "cthash" => cthash(&args),
+        "ctskel" => ctskel(&args),
         "api" => apitrace::run(&args),
         other => { eprintln!("unknown subcommand {}", other); std::process::exit(2); }
     }
+}
+
+/// C14: reads a valgrind-lackey memory/instruction trace on stdin, cuts it into blocks of `block`
+/// lines and prints one JSON object with the SHAKE128 digest of every block (the raw trace is
+/// never stored).  With dump=<k> the k-th block is written out instead.
+fn cthash(a: &Args) {
+    use sha3::digest::{ExtendableOutput, Update, XofReader};
+    use std::io::BufRead;
+    let block = a.u("block", 4096) as usize;
+    let dump = a.0.get("dump").map(|v| v.parse::<usize>().unwrap());
+    let stdin = std::io::stdin();
+    let (mut n, mut inblock, mut blocks): (usize, usize, Vec<String>) = (0, 0, vec![]);
+    let mut h = sha3::Shake128::default();
+    let mut dumped: Vec<String> = vec![];
+    let (mut last, mut rep, mut started, mut stopped) = (String::new(), 0usize, false, false);
+    // instruction addresses (hex, as lackey prints them) to leave out of the observation: the driver passes the
+    // instructions guarded by a KNOWN, recorded data-dependent branch so that everything else is still compared exactly
+    let skip: std::collections::HashSet<String> = a.s("skip", "").split(',').filter(|s| !s.is_empty()).map(|s| s.to_string()).collect();
+    let mut first_i = String::new();
+    let mut skipped = 0usize;
+    for line in stdin.lock().lines() {
+        let line = line.unwrap();
+        // lackey lines: "I  addr,size", " L addr,size", " S addr,size", " M addr,size"; everything else (==pid== banners) is skipped
+        let b = line.as_bytes();
+        if b.len() < 4 || !(b[0] == b'I' || (b[0] == b' ' && (b[1] == b'L' || b[1] == b'S' || b[1] == b'M'))) { continue; }
+        // region markers of the probe: 3 consecutive identical 8-byte stores open, 5 close
+        if b[0] == b' ' {
+            if b[1] == b'S' && line.ends_with(",8") && line == last { rep += 1; } else { rep = 1; last = line.clone(); }
+            if rep == 3 && !started { started = true; continue; }
+            if rep == 5 && started { stopped = true; }
+        }
+        if !started || stopped { continue; }
+        if b[0] == b'I' {
+            let addr = line[1..].trim().split(',').next().unwrap_or("");
+            if first_i.is_empty() { first_i = addr.to_string(); }
+            if skip.contains(addr) { skipped += 1; continue; }
+        }
+        h.update(b); h.update(b"\n");
+        if dump == Some(blocks.len()) { dumped.push(line.clone()); }
+        n += 1; inblock += 1;
+        if inblock == block {
+            let mut d = [0u8; 8]; std::mem::take(&mut h).finalize_xof().read(&mut d);
+            blocks.push(util::hexs(&d)); inblock = 0;
+        }
+    }
+    if !started || !stopped { eprintln!("cthash: region markers not found (started={}, stopped={})", started, stopped); std::process::exit(3); }
+    if inblock > 0 { let mut d = [0u8; 8]; h.finalize_xof().read(&mut d); blocks.push(util::hexs(&d)); }
+    if dump.is_some() { for l in dumped { println!("{}", l); } return; }
+    println!("{}", serde_json::json!({"nlines": n, "blocks": blocks, "first_i": first_i, "skipped": skipped}));
+}
+
+/// C14 skeleton: number of rejection-loop attempts of the CTEST entry point for random RNG outputs
+fn ctskel(a: &Args) {
+    use api::MlDsa;
+    use fips204::verif_hooks as vh;
+    fn one<S: MlDsa>(seed: u64, n: usize) {
+        let mut p = util::Prng::new(seed, 0x1400 + S::SET as u64);
+        for _ in 0..n {
+            let d = p.bytes(64);
+            vh::trace_start();
+            let r = util::guarded(|| S::dudect(&mut util::ScriptRng::new(&d), b"skeleton"));
+            let att = vh::trace_take().iter().filter(|e| e.0 == "sign_attempt").count();
+            println!("{}", serde_json::json!({"ev": "CtSkeleton", "set": S::SET, "rng": util::hexs(&d[..8]), "attempts": att, "ok": matches!(r, Ok(Ok(_)))}));
+        }
+    }
+    let (seed, n) = (a.u("seed", 1), a.u("n", 8) as usize);
+    one::<api::Set44>(seed, n); one::<api::Set65>(seed, n); one::<api::Set87>(seed, n);
 }
